@@ -563,11 +563,16 @@ inline bool levels_S(Rng& r, uint64_t idx)
       return p.ok && throws_on(p.tid, p.seq);
     };
   uint32_t const nl = static_cast<uint32_t>(r.range(1, 2));
+  // one scenario in three: the loggers print %(time) and differ ONLY in their timestamp pattern - "the logger's
+  // pattern" includes how that logger renders the time
+  bool const timed = r.chance(1, 3);
+  static char const* const ts_pats[2] = {"%H:%M:%S", "%Y-%m-%d %H"};
   for (uint32_t l = 0; l < nl; ++l)
   {
     std::vector<uint32_t> idxs;
     for (uint32_t i = 0; i < ns; ++i) if (r.chance(2, 3) || idxs.empty()) idxs.push_back(i);
-    w.make_logger(idxs, quill::PatternFormatterOptions{"L|%(log_level)|%(message)"});
+    if (timed) w.make_logger(idxs, quill::PatternFormatterOptions{"L|%(time)|%(log_level)|%(message)", ts_pats[l], quill::Timezone::GmtTime});
+    else w.make_logger(idxs, quill::PatternFormatterOptions{"L|%(log_level)|%(message)"});
   }
   recorder().clear();
   SRun run{w, r};
@@ -699,7 +704,17 @@ inline bool levels_S(Rng& r, uint64_t idx)
         ok = false;
         break;
       }
-      std::string want = (has_override[si] ? "O" + std::to_string(si) : std::string{"L"}) + "|" + level_name(is.level) + "|" + e.msg + "\n";
+      std::string tpart;
+      if (timed && !has_override[si])
+      {
+        time_t const secs = static_cast<time_t>(e.ts / 1000000000ull);
+        tm g{};
+        gmtime_r(&secs, &g);
+        char tb[64];
+        strftime(tb, sizeof tb, ts_pats[is.logger], &g);
+        tpart = std::string{tb} + "|";
+      }
+      std::string want = (has_override[si] ? "O" + std::to_string(si) : std::string{"L"}) + "|" + tpart + level_name(is.level) + "|" + e.msg + "\n";
       if (e.stmt != want)
       {
         violation("C16", "sink-line-not-formatted-with-its-own-pattern", J{}.unum("sink", si).boolean("sink_has_override", has_override[si]).str("got", e.stmt.substr(0, 100)).str("want", want.substr(0, 100)).str("scenario", "levels_S").raw("cfg", w.describe()));
@@ -711,6 +726,7 @@ inline bool levels_S(Rng& r, uint64_t idx)
     run.poll();
   }
   stat_add("levels_scenarios");
+  if (timed && nl == 2) stat_add("levels_scenarios_with_loggers_differing_only_in_timestamp_pattern");
   stat_add("levels_statements_enqueued", static_cast<long long>(exps.size()));
   stat_add("levels_statements_not_evaluated", static_cast<long long>(not_evaluated));
   stat_add("levels_dynamic_statements", static_cast<long long>(dyn));
